@@ -186,8 +186,6 @@ class Printer:
         k = 0
         if self.free:
             k = r.choice([0, 0, 1, 2, len(digits), len(digits) + r.randint(0, 3), r.randint(0, len(digits))])
-        if "dexp" in self.repairs and not -2 ** 31 <= e10 + k < 2 ** 31:
-            k = 0                                 # keep the written exponent inside int32 when the value's is
         dot = k > 0 or (self.free and r.random() < 0.3)
         if k == 0:
             ip, fp = digits, ""
@@ -520,7 +518,7 @@ SYSTEM_SIDS = {b"$ion": 1, b"$ion_1_0": 2, b"$ion_symbol_table": 3, b"name": 4, 
                b"max_id": 8, b"$ion_shared_symbol_table": 9}
 
 
-REPAIRS = ("vtff", "cmt", "d14", "d15", "d31", "dexp", "dot")
+REPAIRS = ("vtff", "cmt", "d14", "d15", "d31", "dot")
 
 
 def render(forest, rng, freedom=True, sid_spelling=False, ivm=0.0, features=None, repairs=(), vtff=1.0):
